@@ -275,15 +275,21 @@ func (e *Engine) runDemo(prop, demo string, rep map[string]interface{}, work str
 	ovb, _ := json.Marshal(ov)
 	ovFile := filepath.Join(work, "overlay_demo.json")
 	os.WriteFile(ovFile, ovb, 0o644)
-	cmd := exec.Command("bash", "-c", fmt.Sprintf("ulimit -v 8000000; cd %s && go test -overlay %s -vet=off -count=1 -timeout 120s -run '^(%s)$' ./%s 2>&1", e.repoDir, ovFile, strings.Join(names, "|"), dir))
-	cmd.Env = append(os.Environ(), "GOFLAGS=-mod=mod", "GOPROXY=off", "GOSUMDB=off", "GOTOOLCHAIN=local")
-	out, _ := cmd.CombinedOutput()
-	text := string(out)
-	if !strings.Contains(text, "--- FAIL") && !strings.Contains(text, "panic:") {
-		return false
-	}
-	if strings.Contains(text, "[build failed]") || strings.Contains(text, "[setup failed]") {
-		return false
+	// Several demonstrations depend on timing (a writer that blocks for some milliseconds, a source
+	// that pauses for a fraction of the tolerance) and can fail spuriously on a loaded machine.  A
+	// failure counts only when the test fails three times in a row.
+	text := ""
+	for attempt := 0; attempt < 3; attempt++ {
+		cmd := exec.Command("bash", "-c", fmt.Sprintf("ulimit -v 8000000; cd %s && go test -overlay %s -vet=off -count=1 -timeout 120s -run '^(%s)$' ./%s 2>&1", e.repoDir, ovFile, strings.Join(names, "|"), dir))
+		cmd.Env = append(os.Environ(), "GOFLAGS=-mod=mod", "GOPROXY=off", "GOSUMDB=off", "GOTOOLCHAIN=local")
+		out, _ := cmd.CombinedOutput()
+		text = string(out)
+		if !strings.Contains(text, "--- FAIL") && !strings.Contains(text, "panic:") {
+			return false
+		}
+		if strings.Contains(text, "[build failed]") || strings.Contains(text, "[setup failed]") {
+			return false
+		}
 	}
 	// the first lines of the failure describe the input
 	var keep []string
